@@ -367,6 +367,58 @@ def clock_access(prog: Program, rep: Report) -> None:
         rep.check(rule, fi.qual, f"clock read through the step number ({cnt} access(es))", not bad, what_bad=f"absolute time enters the per-step computation: {[unparse(b) for b in bad]} - shifting the whole set-up in time would change the result", what_ok="step / dt only", loc=fi.loc())
 
 
+def fields_independent_of_particles(prog: Program, rep: Report) -> None:
+    """R14.5: the gridded forcing (self.fields, file position) evolves independently of the particle list."""
+    rule = "R14.5"
+    fi = prog.role_func("forcing", "update")
+    env = prog.type_env(fi)
+    part = set(statefx.local_state_aliases(prog, fi))  # X, Y, Z ...
+    for node in walk_no_nested(fi.node):
+        if isinstance(node, ast.Assign) and isinstance(node.targets[0], ast.Name) and (env.get(unparse(node.value)) == "state" or prog._expr_role(node.value, env) == "state"):
+            part.add(node.targets[0].id)
+    part |= {"state"}
+
+    def mentions_particles(e: ast.AST) -> bool:
+        for n in ast.walk(e):
+            if isinstance(n, ast.Name) and n.id in part:
+                return True
+            if isinstance(n, ast.Attribute) and unparse(n) in ("self.K", "self.A"):
+                return True
+        return False
+
+    def touches_fields(nodes) -> list:
+        out = []
+        for s in nodes:
+            for n in ast.walk(s):
+                if isinstance(n, (ast.Assign, ast.AugAssign)):
+                    tg = n.targets if isinstance(n, ast.Assign) else [n.target]
+                    for t in tg:
+                        for tt in (t.elts if isinstance(t, ast.Tuple) else [t]):
+                            if unparse(tt).startswith("self.fields["):
+                                out.append(n)
+                if isinstance(n, ast.Call) and unparse(n.func) in ("self._read_velocity", "self._read_field", "self.open_forcing_file", "self._select_file"):
+                    out.append(n)
+        return out
+
+    all_field_stmts = touches_fields(fi.node.body)
+    if not all_field_stmts:
+        raise AnalysisError("Forcing.update: no store to self.fields found")
+    n = 0
+    for node in walk_no_nested(fi.node):
+        if isinstance(node, ast.If) and mentions_particles(node.test):
+            n += 1
+            inner = touches_fields(node.body + node.orelse)
+            leaves = [x for s in node.body + node.orelse for x in ast.walk(s) if isinstance(x, (ast.Return, ast.Raise, ast.Break, ast.Continue))]
+            later = [f for f in all_field_stmts if f.lineno > node.lineno]
+            bad = bool(inner) or (bool(leaves) and bool(later))
+            rep.check(rule, fi.qual, f"branch on the particle list: `{short(node.test, 60)}`", not bad, what_bad="the time evolution of the gridded fields (hand-over, increments, reads) is control-dependent on the particle list: a particle's forcing then depends on which other particles exist", what_ok="does not control the gridded fields", loc=fi.loc(node))
+    for f in all_field_stmts:
+        if isinstance(f, (ast.Assign, ast.AugAssign)):
+            rep.check(rule, fi.qual, short(f, 80), not mentions_particles(f.value), what_bad="a gridded field is computed from per-particle values", what_ok="gridded values only", loc=fi.loc(f))
+    # the early part of update (level lookup) and the final sampling may depend on particles; nothing else
+    rep.ok(rule, fi.qual, f"{len(all_field_stmts)} field stores/reads, {n} branch(es) on particle data inspected", "", fi.loc())
+
+
 def run(prog: Program, rep: Report, tier: str) -> None:
     rep.level = "other"
     rep.explanation = (
@@ -382,10 +434,12 @@ def run(prog: Program, rep: Report, tier: str) -> None:
     rep.rule("R14.2", "per-index independence: kernels index per-particle arrays by the loop variable; no cross-particle reduction on the update path", 8)
     rep.rule("R14.3", "nondeterminism sources enumerated and confined (clock, glob, RNG, set iteration)", 8)
     rep.rule("R14.4", "per-step modules read the clock through step/dt only", 7)
+    rep.rule("R14.5", "the gridded forcing fields evolve independently of the particle list (no control or data dependence)", 5)
     cache_coherence(prog, rep)
     kernel_independence(prog, rep)
     nondeterminism(prog, rep)
     clock_access(prog, rep)
+    fields_independent_of_particles(prog, rep)
 
 
 from ..selftest import Mut  # noqa: E402
@@ -407,6 +461,8 @@ AUDIT = [
     Mut("today-in-filename", ON, "            self.filename = Path(filename)\n            self.numrec = 999999", "            self.filename = Path(str(filename) + str(date.today()))\n            self.numrec = 999999", rule="R14.3"),
     Mut("release-shuffle", RL, "        V0 = V0.repeat(V.mult)\n", "        V0 = V0.repeat(V.mult)\n        np.random.shuffle(V0)\n", rule="R14.3"),
     Mut("forcing-absolute-time", RO, '        step = self.modules["time"].step\n\n        # Local depth level', '        step = self.modules["time"].time2step(self.modules["time"].time)\n\n        # Local depth level', rule="R14.4"),
+    Mut("forcing-skip-when-empty", RO, "        # Read from config?\n        interpolate_velocity_in_time = True", "        if len(X) == 0:\n            return\n        interpolate_velocity_in_time = True", rule="R14.5"),
+    Mut("forcing-increment-if-particles", RO, "            if interpolate_velocity_in_time:\n                self.fields[\"u\"] += self.fields[\"dU\"]", "            if interpolate_velocity_in_time and len(X) > 0:\n                self.fields[\"u\"] += self.fields[\"dU\"]", rule="R14.5"),
     Mut("benign-compactify-early", MO, "        self.release.update()\n        self.force.update()\n\n        # self.state.compactify()", "        self.release.update()\n        self.state.compactify()\n        self.force.update()\n\n        # self.state.compactify()", expect="silent"),
     Mut("benign-log-time", RO, "        # Local depth level and interpolation coefficient", "        logger.debug('time %s', self.modules['time'].time)", expect="silent"),
 ]
